@@ -110,6 +110,9 @@ func init() {
 	models["(time.Time).String"] = strOpaque("time")
 	models["(time.Time).Format"] = strOpaque("time")
 	models["(time.Duration).String"] = strOpaque("duration")
+	// bech32 rendering of addresses: only used for logs / lookups answered by model keepers
+	models["(github.com/cosmos/cosmos-sdk/types.AccAddress).String"] = strOpaque("accaddr")
+	models["(github.com/cosmos/cosmos-sdk/types.ValAddress).String"] = strOpaque("valaddr")
 	// utils.NextMonth: same day next month, day-of-month clipped to 28: between 28 and 31 days later (contract)
 	models["github.com/lavanet/lava/v5/utils.NextMonth"] = func(ex *Exec, fn *ssa.Function, args []Value) Value {
 		c := ex.ctx
